@@ -18,6 +18,7 @@ EXPLANATION = (
     "name column with sum, concatenates control and test column-wise with an outer join, fills 0, and takes test - control for counts and durations, with "
     "each trace's own rank / iteration arguments; the five class masks, evaluated on every consistent (control, test) sign pattern, are pairwise disjoint "
     "and exhaustive and identical inputs fall into 'unchanged' only."
+    " Later additions: signed full-width summary columns, numeric default selection order, effect rules."
 )
 TD = "hta.trace_diff"
 SUMCOLS = ["cat", "name", "short_name", "counts", "total_duration", "cat_id", "name_id"]
